@@ -164,6 +164,14 @@ func (sm *SessionManager) Close() error {
 	for i := 0; i < len(sm.pools); i++ {
 		sm.pools[i].close()
 	}
+	// the stream pools parked by a hot restart belong to the manager as well: left open, a hot restart
+	// event arriving on one of their sessions would make the closed manager dial new sessions
+	sm.Lock()
+	for _, p := range sm.reservePools {
+		p.close()
+	}
+	sm.reservePools = nil
+	sm.Unlock()
 	return nil
 }
 
